@@ -164,6 +164,33 @@ def case_grid(case):
             e = sl.relerr(outp, full, max(np.abs(full).max(), 1e-300))
             if not e <= tol:
                 v.append({"sub": "clamp", "sig": "clamp/" + sigp, "msg": "%s: modes >= padded size differs from the all-modes solve by %.2e" % (lab, e)})
+    if not fp:
+        # dispersion mode with a NON-ZERO measurement point (the output is re-centred on it): the fields move, the grid they
+        # are reported on does not - still x = i*dx, y = j*dy, still the source's shape, still the crop of the padded solve
+        for mp2 in ((dx, 2 * dy), (0.5 * dom[0] + dx, 0.5 * dom[1] - dy), (0.37 * dom[0], 0.81 * dom[1]), (dom[0] - dx, 0.0)):
+            mpp2 = (mp2[0] + px * dx, mp2[1] + py * dy)
+            for modes in ((256, 256), (4, 6)):
+                g, out = S(q, dom, modes, halo, mp2)
+                lab = "nx=%d ny=%d halo=%r modes=%r dispersion, meas_pt=(%.4g, %.4g)" % (nx, ny, halo, modes, mp2[0], mp2[1])
+                if g is None:
+                    raised[out] = raised.get(out, 0) + 1
+                    continue
+                returned += 1
+                if not isinstance(out, np.ndarray) or out.shape != (2, 2, ny, nx):
+                    v.append({"sub": "shape", "sig": "shape/recentred", "msg": "%s: returned a wrong shape for a %dx%d source" % (lab, ny, nx)})
+                    continue
+                X, Y = np.asarray(g[0]), np.asarray(g[1])
+                Xw, Yw = np.meshgrid(np.arange(nx) * (dom[0] / nx), np.arange(ny) * (dom[1] / ny))
+                if X.shape[-2:] != (ny, nx) or not (np.allclose(X.reshape(-1, ny, nx)[0], Xw, rtol=1e-13, atol=1e-12) and np.allclose(Y.reshape(-1, ny, nx)[0], Yw, rtol=1e-13, atol=1e-12)):
+                    v.append({"sub": "coords", "sig": "coords/recentred", "msg": "%s: returned coordinates are not x=i*dx, y=j*dy (x[0]=%r, y[0]=%r)" % (lab, float(X.reshape(-1, ny, nx)[0][0, 0]), float(Y.reshape(-1, ny, nx)[0][0, 0]))})
+                if px or py:
+                    gp, outp = S(qp, dome, modes, 0.0, mpp2)
+                    if gp is None or not isinstance(outp, np.ndarray) or outp.shape[-2:] != (nye, nxe):
+                        v.append({"sub": "halo-padding", "sig": "halo-padding/recentred", "msg": "%s: accepted, but the same request on the explicitly padded source (halo=0) %s" % (lab, "raised " + str(outp) if gp is None else "returned a wrong shape")})
+                        continue
+                    e = sl.relerr(out, outp[..., py:nye - py, px:nxe - px], max(np.abs(full).max(), 1e-300))
+                    if not e <= tol:
+                        v.append({"sub": "halo-padding", "sig": "halo-padding/recentred", "msg": "%s: differs from the crop of the explicitly padded halo=0 solve by %.2e" % (lab, e)})
     return {"v": v[:8], "nt": returned if returned else False, "key": core.canon(case), "n": cnt[0],
             "obs": {"returned": returned, "raised": raised, "lowpass_tested": ntested, "padded": [nxe, nye]}}
 
